@@ -180,3 +180,82 @@ Theorem C17_current_route_url_is_route_url : forall c e rs rname matched md gt e
          (match o_query o with Some _ => o | None => set_query o (QPairs gt) end) (dupdate md kw) = Ok u.
 Proof. exact current_route_url_is_route_url. Qed.
 Print Assumptions C17_current_route_url_is_route_url.
+
+(* every '%' in what the helpers append to the application URL starts a %HH escape *)
+Theorem C17_generate_pct : forall p kw u, generate p kw = Ok u -> pct_ok u = true.
+Proof. exact generate_pct. Qed.
+Print Assumptions C17_generate_pct.
+
+Theorem C17_join_elements_pct : forall els s, join_elements els = Ok s -> pct_ok s = true.
+Proof. exact join_elements_pct. Qed.
+Print Assumptions C17_join_elements_pct.
+
+Theorem C17_urlencode_pct : forall l s, Forall wf_pair l -> urlencode l = Ok s -> pct_ok s = true.
+Proof. exact urlencode_pct. Qed.
+Print Assumptions C17_urlencode_pct.
+
+Theorem C17_route_url_pct : forall c e rs n els o kw u,
+  wf_query (o_query o) -> wf_anchor (o_anchor o) ->
+  join_elements_c c els = join_elements els ->
+  route_url c e rs n els o kw = Ok u ->
+  exists app rest, parse_app e o = Ok app /\ u = app ++ rest /\ pct_ok rest = true.
+Proof. exact route_url_pct. Qed.
+Print Assumptions C17_route_url_pct.
+
+(* static asset under a URL registration: registered URL ++ quoted sub-path (++ query, fragment); the
+   quoted sub-path decodes back, for every sub-path and every scheme *)
+Theorem C17_static_external_roundtrip : forall e url sub o u,
+  static_external e url sub o = Ok u ->
+  exists url' q qs fr,
+    u = url' ++ q ++ qs ++ fr /\ tail_parts o = Ok (qs, fr)
+    /\ (forall p, urlparse [] url = Ok p -> r_scheme p <> [] -> url' = url)
+    /\ unquote_text q = Some sub /\ Forall pc q /\ pct_ok q = true.
+Proof. exact static_external_roundtrip. Qed.
+Print Assumptions C17_static_external_roundtrip.
+
+(* scheme://host[:port] contains only characters of the inputs it was built from (plus ':' '/' and the
+   digits of the default ports): any character class the inputs respect, the authority respects *)
+Theorem C17_host_part_chars : forall P : N -> Prop,
+  P 58 -> P 47 -> Forall P [52; 51; 56; 48] ->
+  forall e o, inputs_ok P e o -> Forall P (host_part e o).
+Proof. exact host_part_chars. Qed.
+Print Assumptions C17_host_part_chars.
+
+Theorem C17_route_url_decodes_clean : forall c e rs n els o kw u,
+  inputs_ok no_delim e o -> o_app_url o = None ->
+  wf_query (o_query o) -> wf_anchor (o_anchor o) ->
+  join_elements_c c els = join_elements els ->
+  route_url c e rs n els o kw = Ok u ->
+  exists base qt f, cut_ref u = (base, qt, f) /\ Forall qc qt /\ Forall qc f
+    /\ query_decodes (o_query o) qt
+    /\ (forall t, spec_anchor (o_anchor o) = Some t -> unquote_text f = Some t).
+Proof. exact route_url_decodes_clean. Qed.
+Print Assumptions C17_route_url_decodes_clean.
+
+(* resource_url with a virtual root and with route_name= *)
+Theorem C17_resource_url_x_plain : forall c e rs names els o,
+  resource_url_x c e rs names els o None None = resource_url c e names els o.
+Proof. exact resource_url_x_plain. Qed.
+Print Assumptions C17_resource_url_x_plain.
+
+Theorem C17_resource_url_x_route : forall c e rs names els o vroot rname rem rkw u,
+  resource_url_x c e rs names els o vroot (Some (rname, rem, rkw)) = Ok u ->
+  exists vp vpt, resource_adapter names vroot = Ok (vp, vpt)
+    /\ route_url c e rs rname els o
+         (dupdate [(rem, KSeq vpt [])] (match rkw with Some k => k | None => [] end)) = Ok u.
+Proof. exact resource_url_x_route. Qed.
+Print Assumptions C17_resource_url_x_route.
+
+Theorem C17_resource_url_x_decodes : forall c e rs names els o vroot u,
+  wf_query (o_query o) -> wf_anchor (o_anchor o) ->
+  join_elements_c c els = join_elements els ->
+  resource_url_x c e rs names els o vroot None = Ok u ->
+  exists app vp vpt sfx qt f,
+    parse_app e o = Ok app /\ resource_adapter names vroot = Ok (vp, vpt)
+    /\ Forall pc (vp ++ sfx) /\ Forall qc qt /\ Forall qc f
+    /\ (~ In 35 app -> ~ In 63 app -> cut_ref u = (app ++ vp ++ sfx, qt, f))
+    /\ query_decodes (o_query o) qt
+    /\ (forall t, spec_anchor (o_anchor o) = Some t -> unquote_text f = Some t)
+    /\ (els <> [] -> exists ts, spec_elements els = Some ts /\ decode_segments sfx = Some ts).
+Proof. exact resource_url_x_decodes. Qed.
+Print Assumptions C17_resource_url_x_decodes.
